@@ -59,7 +59,6 @@ Definition hrun (h : hstep) (s : st) : st := step (h_op h) (h_k h) (h_retain h) 
    outside the config-from-nothing class (failures inside remove / remove-revision / enable / disable are not covered) *)
 Definition covered (h : hstep) (s : st) : Prop :=
   (2 <= h_retain h)%Z /\
-  (okind (h_op h) = OEnable -> orev (h_op h) = cur s) /\
   (h_k h = O \/
    (c10_op (h_op h) /\ cfg_guard (h_op h) s /\
     (okind (h_op h) = ORefresh \/
@@ -67,7 +66,7 @@ Definition covered (h : hstep) (s : st) : Prop :=
 
 Theorem step_wf : forall h s, wf s -> covered h s -> wf (hrun h s).
 Proof.
-  intros [o k retain inuse] s W (R & EN & F). simpl in *. unfold hrun. simpl.
+  intros [o k retain inuse] s W (R & F). simpl in *. unfold hrun. simpl.
   destruct (accepts o s) eqn:AC; [|rewrite refused_unchanged; auto].
   destruct (okind o) eqn:K.
   - (* install *)
